@@ -126,7 +126,10 @@ def zigzag(ctx, rule):
                     got = fold(subs[0]["obj"], env)
                     if got != ref_enc(n) and ok:
                         ok, why = False, " (n=%d is handed to VarInt as %d, reference %d)" % (n, got, ref_enc(n))
-    except (Unfoldable, Raises) as e:
+    except Raises as e:
+        ctx.ob(rule, fi, False, "ZigZag._build: computing the value handed to VarInt raises for some integer (%s)" % e, key="zigzag encode")
+        return
+    except Unfoldable as e:
         ctx.error("%s undecided: ZigZag._build cannot be folded (%s)" % (rule, e))
         return
     ctx.ob(rule, fi, ok and len(hit) == 2 * len(samples) - 1, "ZigZag._build hands VarInt 2n for n >= 0 and 2|n|-1 for n < 0, at every magnitude%s" % why, key="zigzag encode")
@@ -148,7 +151,10 @@ def zigzag(ctx, rule):
                     got = fold(N.subst(p.retval, m), env)
                     if got != ref_dec(v) and ok:
                         ok, why = False, " (x=%d is decoded as %d, reference %d)" % (v, got, ref_dec(v))
-    except (Unfoldable, Raises) as e:
+    except Raises as e:
+        ctx.ob(rule, fi, False, "ZigZag._parse: decoding raises for some value (%s)" % e, key="zigzag decode")
+        return
+    except Unfoldable as e:
         ctx.error("%s undecided: ZigZag._parse cannot be folded (%s)" % (rule, e))
         return
     ctx.ob(rule, fi, ok and len(hit) == 2 * len(samples) - 1, "ZigZag._parse decodes even x as x/2 and odd x as -(x+1)/2, at every magnitude%s" % why, key="zigzag decode")
